@@ -203,3 +203,84 @@ def _real_schedule(rng, n):
 
 Unit("C12", "process[real function, adversarial schedule]", concrete=_real_schedule,
      bounded_desc="the imported (not extracted) run_grid.process with a fake ray: 6 remotes, 2 CPUs, last ref ready first")
+
+
+# ------------------------------------------------------------------ path re-ordering of tabulated results
+FT = "wannierberri/result/tabresult.py"
+FKB = "wannierberri/result/kbandresult.py"
+FP = "wannierberri/parallel.py"
+
+
+def _path_unit(n):
+    @unit("C12", "TABresult.self_to_path[%d points]" % n, scope="shape:path of %d points, every collection order%s" % (n, "" if n <= 5 else " (sampled)"), expect_min=3)
+    def _p(U):
+        import random as _r
+        made = []
+
+        class KR:
+            def __init__(self, data=None, **kw):
+                self.data = data
+                self.kw = kw
+                made.append(self)
+        to_path = U.fn(FKB, "K__Result.to_path", globs=dict(np=rnp), model=False)
+        f = U.fn(FT, "TABresult.self_to_path", globs=dict(np=rnp), model=False)
+        base = rnp.array([[0.1 * j, 0.05 * j * j % 1, (0.37 * j) % 1] for j in range(n)])
+        base[n // 2] = [0.0, 0.5, 0.999999]          # a point close to the cell boundary
+        perms = list(itertools.permutations(range(n))) if n <= 5 else None
+
+        def body():
+            if perms is not None:
+                perm = perms[ctx().choose(len(perms), "collection order")]
+            else:
+                rs = _r.Random(ctx().choose(40, "sampled order"))
+                perm = list(range(n))
+                rs.shuffle(perm)
+            shift = rnp.array([[(j % 3) - 1, 0, (j % 2)] for j in range(n)], dtype=float)      # results come back with k mod lattice vectors
+            me = types.SimpleNamespace()
+            me.kpoints = (base + shift)[list(perm)]
+            vals = [sreal("val_of_path_point_%d" % j) for j in range(n)]        # value belonging to path point j
+            res = KR(data=rnp.array([[vals[j]] for j in perm], dtype=object), transformTR="TR", transformInv="INV", rank=0, other_properties={})
+            res.transformTR, res.transformInv, res.rank, res.other_properties = "TR", "INV", 0, {}
+            res.to_path = lambda m: to_path(res, m)
+            me.results = {"q": res}
+            path = types.SimpleNamespace(get_kpoints=lambda: base.copy())
+            f(me, path)
+            U.ensure("k-points of the result are the path's k-points, in path order", me.kpoints.shape == base.shape and rnp.allclose(me.kpoints, base))
+            out = me.results["q"].data
+            U.ensure("row j carries the value computed for path point j (each point's own values)",
+                     lambda: land(*[lift(out[j][0]) == vals[j] for j in range(n)]) if len(out) == n else False)
+            U.ensure("transformations / rank carried over", me.results["q"].kw.get("transformTR") == "TR" and me.results["q"].kw.get("rank") == 0)
+        U.run(body, check_feasible=False, max_paths=100000)
+
+
+for _n in (1, 2, 3, 4, 5):
+    _path_unit(_n)
+_path_unit(9)
+
+
+@unit("C12", "get_ray_runtime_env", scope="shape:user runtime_env variants", expect_min=1)
+def _renv(U):
+    f = U.fn(FP, "get_ray_runtime_env", globs=dict(os=__import__("os"), __file__="/some/checkout/wannierberri/parallel.py"), model=False)
+    pkg = "/some/checkout/wannierberri"
+
+    def body():
+        bad = []
+        variants = [None, {}, {"env_vars": {"A": "1"}}, {"py_modules": []}, {"py_modules": ["/x/mod"]}, {"py_modules": ["/x/mod", pkg], "pip": ["z"]}, {"py_modules": (pkg,)}]
+        for env in variants:
+            import copy
+            before = copy.deepcopy(env)
+            out = f(runtime_env=env, use_current_checkout=True)
+            user = list((env or {}).get("py_modules", []))
+            if out.get("py_modules", None) is None or list(out["py_modules"]).count(pkg) != 1 or [m for m in out["py_modules"] if m != pkg] != [m for m in user if m != pkg]:
+                bad.append(("workers do not get the driver's checkout exactly once (user modules kept)", env, out))
+            if any(out.get(k) != v for k, v in (env or {}).items() if k != "py_modules"):
+                bad.append(("other entries lost", env, out))
+            if env != before:
+                bad.append(("caller's dictionary modified", before, env))
+            out2 = f(runtime_env=env, use_current_checkout=False)
+            if (out2 or {}) != (before or {}):
+                bad.append(("use_current_checkout=False must return the user's environment unchanged", env, out2))
+        U.ensure("the worker environment ships the driver's package directory whatever runtime_env the user passes", not bad)
+        if bad:
+            ctx().ghost["bad"] = str(bad[:2])
+    U.run(body, check_feasible=False)
